@@ -2,6 +2,7 @@ pub mod c02;
 pub mod c03;
 pub mod c04;
 pub mod c05;
+pub mod c06;
 pub mod c07;
 pub mod c09;
 pub mod c10;
@@ -27,6 +28,7 @@ pub fn dispatch(ctx: &Ctx, replay: Option<&str>) -> i32 {
         "C03" => p!(c03),
         "C04" => p!(c04),
         "C05" => p!(c05),
+        "C06" => p!(c06),
         "C07" => p!(c07),
         "C09" => p!(c09),
         "C10" => p!(c10),
